@@ -63,6 +63,13 @@ type engInput struct {
 	// bursts with a destination the kernel refuses (reply to the loopback broadcast address), after the traced load
 	Poison int `json:"poison"`
 	ScriptPar int        `json:"scriptPar"`
+	// gap-closing dimensions (gap_test.go): the flags-word predicate with AD=1 / failure-cache names in the mixes and
+	// the sweep; datagrams larger than the slab's RX buffer in the UDP load; pipelines on connections that are not read
+	HdrCheck    bool      `json:"hdrCheck"`
+	Oversize    bool      `json:"oversize"`
+	Stalls      []stallIn `json:"stalls"`
+	StallFrames int       `json:"stallFrames"`
+	StallHoldMs int       `json:"stallHoldMs"`
 }
 
 // scriptIn is one behaviour of TcpConn.tla's ScriptSpec, projected: the frames
@@ -266,6 +273,12 @@ func buildQueryOpt(rng *rand.Rand, kind string, client, seq, round int, id uint1
 	switch kind {
 	case "hit":
 		q.name = fmt.Sprintf("h-k%d.%s", rng.Intn(8), zone)
+	case "adhit": // a name the tail validates: its answer carries AD=1 (the query sets AD, asking for it)
+		q.name = fmt.Sprintf("a-k%d.%s", rng.Intn(4), zone)
+	case "failhit": // a name whose resolution fails: the first ask is recorded, the failure cache answers the rest
+		q.name, q.expect = fmt.Sprintf("x-k%d.%s", rng.Intn(4), zone), expServfail
+	case "oversize": // a well-formed query in a datagram larger than the slab's RX buffer: dropped by the reader
+		q.name, q.expect = uniq("o"), expNone
 	case "big": // a primed name whose TXT answer fits the drain buffer only when it is empty
 		q.name, q.qtype = fmt.Sprintf("b-k%d.%s", rng.Intn(4), zone), dns.TypeTXT
 	case "huge": // a primed name whose TXT answer is larger than the whole drain buffer
@@ -313,8 +326,11 @@ func buildQueryOpt(rng *rand.Rand, kind string, client, seq, round int, id uint1
 	m := new(dns.Msg)
 	m.SetQuestion(q.name, q.qtype)
 	m.Id = id
+	m.AuthenticatedData = kind == "adhit"
 	q.sz = sizeClassOfAnswer(q.name, q.qtype)
-	if kind == "large" {
+	if kind == "oversize" {
+		q.ep = optProfile{has: true, size: 1232, pad: 4200 + rng.Intn(600)}
+	} else if kind == "large" {
 		// a query frame of the large job class: 2200 bytes of padding in its OPT
 		if shape == "" || shape == "none" {
 			shape = []string{"plain", "cookie"}[rng.Intn(2)]
@@ -360,6 +376,11 @@ func checkReply(q *query, b []byte) string {
 	}
 	if b[2]&0x80 == 0 {
 		return "reply without QR"
+	}
+	if hdrCheck.Load() {
+		if why := checkHeader(q, b); why != "" {
+			return why
+		}
 	}
 	rcode := int(b[3] & 0x0F)
 	switch q.expect {
@@ -538,6 +559,10 @@ var udpMix = []string{"hit", "hit", "hit", "miss", "miss", "shared", "shared", "
 	"silentTail", "panicTail", "panicHead", "writeHandoff", "qr", "badop", "badcnt", "badbody",
 	"malformed", "malformed"}
 
+// udpMixHdr / tcpMixHdr: the mixes with the names whose replies differ in their flags word (C10 runs)
+var udpMixHdr = append(append([]string{}, udpMix...), "adhit", "adhit", "failhit", "failhit")
+var tcpMixHdr = append(append([]string{}, tcpMix...), "adhit", "adhit", "failhit", "failhit")
+
 func (c *udpClient) run(rng *rand.Rand, server *net.UDPAddr, rounds, burst int, barrier func(int)) {
 	seq := 0
 	for r := 0; r < rounds; r++ {
@@ -550,7 +575,14 @@ func (c *udpClient) run(rng *rand.Rand, server *net.UDPAddr, rounds, burst int, 
 			id := uint16(c.idBase + c.idNext)
 			c.idNext++
 			seq++
-			kind := udpMix[rng.Intn(len(udpMix))]
+			mix := udpMix
+			if c.in.HdrCheck {
+				mix = udpMixHdr
+			}
+			kind := mix[rng.Intn(len(mix))]
+			if c.in.Oversize && rng.Intn(16) == 0 {
+				kind = "oversize"
+			}
 			// a silent packet right after a burst of answered ones is what a stale slab needs
 			if i == burst-1 && rng.Intn(2) == 0 {
 				kind = []string{"malformed", "qr", "silentTail", "panicHead"}[rng.Intn(4)]
@@ -627,7 +659,11 @@ func runStreamConn(in *engInput, res *vh.Result, rng *rand.Rand, proto string, d
 		if !ok {
 			break
 		}
-		kind := tcpMix[rng.Intn(len(tcpMix))]
+		tmix := tcpMix
+		if in.HdrCheck {
+			tmix = tcpMixHdr
+		}
+		kind := tmix[rng.Intn(len(tmix))]
 		if i > 0 && sc.queries[i-1].kind == "hit" && rng.Intn(3) == 0 {
 			kind = "huge" // a small reply is staged when a huge one is produced
 		}
@@ -662,6 +698,8 @@ func scriptQueries(rng *rand.Rand, frames []scriptFrame, client, connNo int, idA
 			continue
 		}
 		switch {
+		case f.Kind == "adhit" || f.Kind == "failhit":
+			kind = f.Kind
 		case f.Kind == "miss":
 			kind = "miss"
 		case f.Sz == "large":
@@ -1118,6 +1156,23 @@ func sweepStream(in *engInput, res *vh.Result, rng *rand.Rand, proto string, dia
 			label: "sweep/" + map[bool]string{true: "sequential", false: "pipelined"}[sequential]}
 		playStream(in, res, rng, proto, dial, client, 8000+pass, &sc, counters)
 	}
+	if !in.HdrCheck {
+		return
+	}
+	// the flags word: a failing name is recorded, then AD=1 replies and failure-cache replies alternate on the
+	// connection's job, one exchange at a time (the job goes back between them) and pipelined (the job is held)
+	for pass, sequential := range []bool{true, false} {
+		frames := []scriptFrame{{Kind: "failhit", Sz: "small", Opt: "none", Brk: true}, {Kind: "failhit", Sz: "small", Opt: "none", Brk: true},
+			{Kind: "failhit", Sz: "small", Opt: "none", Brk: true}, {Kind: "failhit", Sz: "small", Opt: "none", Brk: true}}
+		for rep := 0; rep < 6*in.Sweep; rep++ {
+			frames = append(frames, scriptFrame{Kind: "adhit", Sz: "small", Opt: []string{"none", "plain"}[rep%2], Brk: sequential},
+				scriptFrame{Kind: "failhit", Sz: "small", Opt: []string{"none", "plain", "cookie"}[rep%3], Brk: sequential})
+		}
+		qs, brk := scriptQueries(rng, frames, client, 8100+pass, alloc)
+		sc := tcpScript{queries: qs, breaks: brk, ending: "read-all", linger: 15 * time.Millisecond,
+			label: "sweep-hdr/" + map[bool]string{true: "sequential", false: "pipelined"}[sequential]}
+		playStream(in, res, rng, proto, dial, client, 8100+pass, &sc, counters)
+	}
 }
 
 // playScripts plays every projected TcpConn.tla behaviour on its own connection, a few at a time.
@@ -1205,6 +1260,9 @@ func TestEngineLoad(t *testing.T) {
 	}
 
 	optCheck.Store(in.OptCheck)
+	hdrCheck.Store(in.HdrCheck)
+	leaseProbe := server.VerifC10LeaseProbe(rg.srv)
+	failServed0 := failureServed()
 	// id blocks: UDP clients, TCP clients, then the sweeper, the script player and the primer
 	nClients := in.UDPClients + in.TCPClients + 3
 	idSpan := 65536 / nClients
@@ -1260,14 +1318,33 @@ func TestEngineLoad(t *testing.T) {
 		res.Skip("server did not quiesce after priming")
 	}
 	// ---- hygiene sweep: cookie queries over every slab, then cookie-less ones ----
+	// ---- clients that stop reading (TcpConn.tla Stall): they sit out the server's write bound while the UDP sweep
+	// runs (the sweep uses no stream job), and are joined before the stream sweep
+	var stallWG sync.WaitGroup
+	stallSem := make(chan struct{}, 2) // two at a time: each holds a small-class job while it is parked in its write
+	for i, stl := range in.Stalls {
+		stallWG.Add(1)
+		go func(i int, stl stallIn) {
+			defer stallWG.Done()
+			stallSem <- struct{}{}
+			defer func() { <-stallSem }()
+			playStall(&in, res, rg.tcp, nClients-2, 7000+i, stl, max(in.StallFrames, 200),
+				time.Duration(max(in.StallHoldMs, 3200))*time.Millisecond, &tc)
+		}(i, stl)
+	}
 	if in.Sweep > 0 {
 		sweeper := mk(nClients - 3)
 		sweepUDP(&in, res, rand.New(rand.NewSource(seed*131+7)), sweeper, uaddr, int(st0.UDPSlabCap))
+		if in.HdrCheck {
+			sweepHeaderUDP(&in, res, rand.New(rand.NewSource(seed*131+8)), sweeper, uaddr, int(st0.UDPSlabCap))
+		}
+		stallWG.Wait()
 		close(sweeper.stop)
 		<-sweeper.done
 		_ = sweeper.conn.Close()
 		sweepStream(&in, res, rand.New(rand.NewSource(seed*131+9)), "tcp", dialTCP, nClients-3, blockAlloc(nClients-3), &tc)
 	}
+	stallWG.Wait()
 	// ---- TLC-enumerated size-class / EDNS orders on quiet connections --------------
 	if len(in.Scripts) > 0 {
 		playScripts(&in, res, seed, "tcp", dialTCP, nClients-2, blockAlloc(nClients-2), &tc)
@@ -1363,6 +1440,19 @@ func TestEngineLoad(t *testing.T) {
 			st.UDPInFlight == 0 && rg.srv.Quiesced()
 	})
 	gOK := waitFor(10*time.Second, func() bool { return runtime.NumGoroutine() <= baseG+extraReaders })
+	// an admitted query of the idle server is answered (exactly once: the prober's receiver judges duplicates)
+	probesOK, probesN := 0, 0
+	if in.Oversize {
+		prober := mk(nClients - 3)
+		probesN = 6
+		probesOK = afterProbes(rand.New(rand.NewSource(seed*17+3)), prober, uaddr, probesN)
+		close(prober.stop)
+		<-prober.done
+		_ = prober.conn.Close()
+		res.Count("after_probes", probesN)
+		res.Count("after_probes_answered", probesOK)
+		waitFor(2*time.Second, rg.srv.Quiesced)
+	}
 	st := server.VerifC10Snapshot(rg.srv)
 	after := map[string]any{"quiesced": quiesced, "settled": settled, "goroutines": runtime.NumGoroutine(),
 		"goroutinesBase": baseG + extraReaders, "stats": st}
@@ -1379,6 +1469,11 @@ func TestEngineLoad(t *testing.T) {
 	if quiesced && st.UDPLeased > maxHeld {
 		res.Violate("after/held-slabs", fmt.Sprintf("[%s] %d slabs still leased with the engine idle; its readers can hold at most %d",
 			in.Name, st.UDPLeased, maxHeld), map[string]any{"driver": "c10-engine", "config": in, "after": after})
+	}
+	if probesN > 0 && probesOK == 0 {
+		res.Violate("after/unanswered", fmt.Sprintf("[%s] with the load stopped and the engine idle (leased=%d of cap %d, inFlight=%d) none of %d "+
+			"well-formed queries sent one at a time was answered: every reader sheds", in.Name, st.UDPLeased, st.UDPSlabCap, st.UDPInFlight, probesN),
+			map[string]any{"driver": "c10-engine", "config": in, "after": after})
 	}
 	if !gOK {
 		buf := make([]byte, 1<<20)
@@ -1446,7 +1541,9 @@ func TestEngineLoad(t *testing.T) {
 	nl, err := sink.write(in.TraceOut, map[string]any{
 		"cfg_name": in.Name, "cfg_mode": in.Mode, "cfg_cap": st.UDPSlabCap,
 		"cfg_takers": st.UDPReaders + extraReaders,
-		"quiesced":   quiesced, "ls": st.UDPLeased, "if": st.UDPInFlight, "idle": st.UDPIdle})
+		"quiesced":   quiesced, "ls": st.UDPLeased, "if": st.UDPInFlight, "idle": st.UDPIdle,
+		// what the readers of this run can have armed between them: more slabs than that in `reading` are held by nobody
+		"hold": maxHeld})
 	if err != nil {
 		t.Fatalf("trace: %v", err)
 	}
@@ -1467,8 +1564,22 @@ func TestEngineLoad(t *testing.T) {
 	res.Count("trace_slabs", len(sink.slabs))
 	res.Sample(after)
 
-	if !rg.stop() {
+	if fs := failureServed(); failServed0 >= 0 && fs >= 0 {
+		res.Count("failure_rung_served", fs-failServed0)
+	}
+	res.Count("tc_replies_seen", int(tcSeen.Load()))
+	stopped := rg.stop()
+	if !stopped {
 		res.Violate("after/stop", fmt.Sprintf("[%s] graceful shutdown did not complete", in.Name),
 			map[string]any{"driver": "c10-engine", "config": in})
+	}
+	// every reader has released its armed ring, every worker has drained: no slab is held
+	if stopped && leaseProbe != nil {
+		waitFor(2*time.Second, func() bool { l, _ := leaseProbe(); return l == 0 })
+		if l, f := leaseProbe(); l != 0 {
+			res.Violate("after/held-slabs", fmt.Sprintf("[%s] %d slabs are still leased (inFlight=%d) after the server stopped: their owners "+
+				"are gone, nobody will give them back", in.Name, l, f), map[string]any{"driver": "c10-engine", "config": in, "after": after})
+		}
+		res.Count("leased_after_stop_checked", 1)
 	}
 }
